@@ -49,6 +49,8 @@ PARTIAL = {
     r"^chrono::naive::date::NaiveDate::(from_ymd|and_hms|succ|pred|from_num_days_from_ce|from_yo|and_hms_milli)$": "vec_index",
     r"^chrono::naive::time::NaiveTime::(from_hms|from_num_seconds_from_midnight|from_hms_milli)$": "vec_index",
     r"^chrono::time_delta::TimeDelta::(weeks|nanoseconds_unused)$": "timedelta_ctor",
+    r"^<chrono::naive::date::NaiveDate as core::ops::arith::(Add|Sub)<chrono::naive::Days>>::(add|sub)$": "vec_index",
+    r"^<chrono::(datetime::DateTime<Tz>|naive::datetime::NaiveDateTime) as core::ops::arith::(Add|Sub)<chrono::(naive::Days|month::Months)>>::(add|sub)$": "vec_index",
 }
 # total for every argument (may return Err/None; allocation failure aborts, it does not unwind)
 TOTAL = [
@@ -140,6 +142,7 @@ TOTAL = [
     r"^<core::ops::control_flow::ControlFlow<.*> as core::ops::try_trait::(Try|FromResidual<.*>)>::(branch|from_residual|from_output)$",
     r"^chrono::naive::date::NaiveDate::(and_time|and_hms_opt|and_hms_milli_opt|and_hms_micro_opt|and_hms_nano_opt|from_yo_opt|from_isoywd_opt|succ_opt|pred_opt|checked_add_days|checked_sub_days|checked_add_months|checked_sub_months|signed_duration_since|num_days_from_ce|year|month|day|ordinal|weekday|from_epoch_days|to_epoch_days|iter_days)$",
     r"^<chrono::naive::date::NaiveDate as chrono::traits::Datelike>::.*$", r"^<chrono::.* as chrono::traits::(Datelike|Timelike)>::.*$", r"^chrono::traits::(Datelike|Timelike)::.*$",
+    r"^chrono::naive::Days::new$", r"^chrono::month::Months::new$",
     r"^chrono::naive::time::NaiveTime::(overflowing_add_signed|overflowing_sub_signed|signed_duration_since|from_hms_milli_opt|from_hms_micro_opt|from_hms_nano_opt|from_num_seconds_from_midnight_opt|num_seconds_from_midnight|format|hour|minute|second|nanosecond)$",
     r"^chrono::naive::datetime::NaiveDateTime::(checked_add_signed|checked_sub_signed|date|time|and_local_timezone|signed_duration_since|format|timestamp|timestamp_millis|and_utc)$",
     r"^chrono::datetime::DateTime::<.*>::(from_timestamp|from_timestamp_millis|from_timestamp_micros|from_timestamp_nanos|naive_utc|naive_local|date_naive|time|timezone|offset|to_utc|timestamp_micros|timestamp_nanos_opt|timestamp_subsec_millis|timestamp_subsec_micros|timestamp_subsec_nanos|to_rfc3339|to_rfc2822|checked_sub_signed|checked_add_months|checked_sub_months|checked_add_days|checked_sub_days|fixed_offset)$",
